@@ -992,6 +992,23 @@ def walk_objects(s):
 REPAIRED = [("repaired", "rejected at construction")]
 
 
+def exhaust_not_last(s):
+    """an exhaust-buffer array that is not (in) the last property of an object, or is inside
+    array items — what docs/metadata.md forbids ("must be the last type in the encoded struct")"""
+    t = s.get("type")
+    if isinstance(t, list) or t == "object":
+        items = ref_order(s.get("properties", {}))
+        for i, (k, p) in enumerate(items):
+            if exhaust_info(p)[0] and i < len(items) - 1:
+                return True
+            if exhaust_not_last(p):
+                return True
+        return False
+    if t == "array":
+        return exhaust_info(s["items"])[0]
+    return False
+
+
 def oracle_construct_valid(schema, cons):
     """a schema built by the rules of docs/metadata.md must be accepted.  Schemas of the finding
     classes F9a / F9b / F9f may instead be *refused* with MetadataSchemaValidationError (that is
@@ -1000,7 +1017,7 @@ def oracle_construct_valid(schema, cons):
         return []
     if cons == SCHEMA_ERR:
         has, zero, nontail = exhaust_info(schema)
-        if zero or nontail or has_fmt(schema, lambda s: re.fullmatch(r"0+p", str(s.get("binaryFormat", "")))):
+        if zero or nontail or exhaust_not_last(schema) or has_fmt(schema, lambda s: re.fullmatch(r"0+p", str(s.get("binaryFormat", "")))):
             return REPAIRED
     names = set()
     for o in walk_objects(schema):
